@@ -369,11 +369,82 @@ def law_session(sid: int, seed: int, risky=True) -> dict:
     return s.finish()
 
 
+def twin_session(sid: int, seed: int) -> dict:
+    """Two leaves that differ in ONE bound's spelling or by one suffix step (`2` / `2.0`, `2.0` / `2.0.post1`, `2.0` /
+    `2.0rc1`, ...), each combined with the same partner by the same operations.  Anything that identifies the twins - a memo
+    keyed by `Version` (which equates `2` and `2.0`), by the rendered text, by a hash that ignores a field - answers for one
+    twin with the other's result; every event is validated against the specification as usual."""
+    rng = random.Random(seed)
+    s = Session(sid, seed)
+    pool = make_pool(rng, k=2, epoch_ok=False)
+    rel = [rng.choice([1, 2, 3, 9])] + [rng.choice([0, 0, 1, 2, 10]) for _ in range(rng.choice([0, 1, 1, 2]))]
+    v = ".".join(map(str, rel))
+    kind = rng.choice(["zero", "zero", "zero", "post", "post", "rc", "dev"])
+    w = {"zero": v + ".0", "post": v + ".post1", "rc": v + "rc1", "dev": v + ".dev1"}[kind]
+    if rng.random() < 0.1:
+        v, w = "1!" + v, "1!" + w
+    ops = ["<", "<=", ">", ">=", "==", "!="] + (["==*", "!=*", "==*", "!=*"] if kind == "zero" else []) + (["~=", "~="] if len(rel) >= 2 else [])
+    op = rng.choice(ops)
+    render_twins = rng.random() < 0.15
+
+    def clause(o, x):
+        return f"{o[:2]}{x}.*" if o.endswith("*") else f"{o}{x}"
+    extra = ""
+    if rng.random() < 0.5 and op in ("<", "<=", ">", ">=", "!=", "!=*"):
+        lo = rng.choice(pool)
+        extra = rng.choice([f">={lo},", f"<{lo},", f"!={lo},"])
+    t1, t2 = extra + clause(op, v), extra + clause(op, w)
+    if render_twins:
+        # two different sets the library renders alike (the recorded `~=` rendering of a post-release upper bound):
+        # [X.Y, (X+1).0) and [X.Y, (X+1).0.postN) both print as ~=X.Y
+        x, y = rng.choice([1, 2, 3]), rng.choice([0, 2, 9])
+        if rng.random() < 0.5:
+            t1, t2 = f">={x}.{y},<{x + 1}.0", f">={x}.{y},<{x + 1}.0.post{rng.choice([0, 1])}"
+        else:
+            z = rng.choice([0, 1, 5])
+            t1, t2 = f">={x}.{y}.{z},<{x}.{y + 1}.0", f">={x}.{y}.{z},<{x}.{y + 1}.0.post1"
+        pool = pool + [f"{x}.{y}", f"{x + 1}.0"]
+    if rng.random() < 0.5:
+        t1, t2 = t2, t1
+    if render_twins or rng.random() < 0.25:
+        # the partner is a union (a hole): the twins meet UnionSpecifier's own operators
+        a = rng.choice(pool)
+        u = s.parse(rng.choice([f"!={a}", f"!={Version(a).base_version}.*", f"!={a},!={rng.choice(pool)}"]))
+    else:
+        u = s.parse(gen_leaf(rng, pool, risky=True))
+    if u is not None and rng.random() < 0.6 and not render_twins:
+        u2 = s.parse(gen_leaf(rng, pool, risky=True))
+        u = s.binop(rng.choice(["or", "or", "and"]), u, u2) if u2 is not None else None
+    p1, p2 = s.parse(t1), s.parse(t2)
+    if None in (u, p1, p2) or s.dead:
+        return s.finish()
+    for o in (["or", "ror", "and", "not", "reparse"] if render_twins else rng.sample(["or", "and", "ror", "rand", "not", "reparse", "self"], 5)):
+        for t in (p1, p2):
+            if s.dead:
+                break
+            if o in ("or", "and"):
+                r = s.binop(o, u, t)
+            elif o in ("ror", "rand"):
+                r = s.binop(o[1:], t, u)
+            elif o == "not":
+                r = s.invert(t)
+            elif o == "reparse":
+                r = s.reparse(t)
+            else:
+                r = s.binop(rng.choice(["or", "and"]), p1, p2) if t == p1 else s.binop("or", p2, p1)
+            if r is not None and rng.random() < 0.4:
+                s.reparse(r) if rng.random() < 0.5 else s.invert(r)
+    return s.finish()
+
+
 def make_batch(seed: int, n_random: int, n_law: int, risky=True) -> dict:
     sessions = []
     sid = 0
     for k in range(n_random):
         sid += 1
+        if k % 5 == 4:
+            sessions.append(twin_session(sid, seed * 1000007 + 300000 + k))
+            continue
         sessions.append(random_session(sid, seed * 1000003 + k, risky=risky))
     for k in range(n_law):
         sid += 1
